@@ -571,7 +571,7 @@ def run_parallel(ctx, argv, lines, timeout, jobs=None):
     n = len(lines)
     if n == 0:
         return []
-    per = max(1, (n + jobs * 4 - 1) // (jobs * 4))
+    per = max(1, min(40, (n + jobs * 4 - 1) // (jobs * 4)))
     chunks = [(i, lines[i:i + per]) for i in range(0, n, per)]
     res = [None] * len(chunks)
     lock = threading.Lock()
@@ -769,13 +769,13 @@ def run(ctx):
         rng2 = random.Random(ctx.seed + 1)
         xs = rng2.sample(xs, min(len(xs), 300))
     for x in xs:
-        if size(x['A']) + size(x['B']) <= 400:
+        if size(x['A']) + size(x['B']) <= (60 if ctx.quick else 100):
             cases.append(Case('xml:' + x['file'], x['A'], x['B'], x['s'], 'e', xml=x))
     nxml = len([c for c in cases if c.xml])
     # ---- generated
     for i in range(n):
         kind, A, B = gen_case(rng)
-        if not (in_bounds(A) and in_bounds(B)) or size(A) + size(B) > 90:
+        if not (in_bounds(A) and in_bounds(B)) or size(A) + size(B) > 60:
             continue
         s = rng.choice([0, 0, 0, 1, 3, 10, 20, -4])
         opts = 'e' + ('s' if i % 40 == 0 and size(A) + size(B) < 30 else '') + ('t' if i % 12 == 0 else '')
